@@ -88,6 +88,7 @@ func runSys(toks []string) (string, string) {
 	nconn := 1
 	var pw *string
 	var tlsState *tls.ConnectionState
+	authMsg := false
 	for _, t := range secs[0] {
 		switch {
 		case strings.HasPrefix(t, "n="):
@@ -95,6 +96,10 @@ func runSys(toks []string) (string, string) {
 		case strings.HasPrefix(t, "pw="):
 			s := string(unhx(t[3:]))
 			pw = &s
+		case t == "authmsg":
+			// the application installs its own AUTH handler: it decides like the built-in one but reports a refusal as an
+			// error *message* with a nil Go error (both forms of reporting a failure are in use in the library)
+			authMsg = true
 		case t == "tls":
 			// the connections are served the way connections of the TLS port are, after a completed handshake
 			tlsState = &tls.ConnectionState{HandshakeComplete: true}
@@ -124,6 +129,9 @@ func runSys(toks []string) (string, string) {
 	if pw != nil {
 		srv.SetRequirePass(*pw)
 		srv.AddAuthenticator(auth.NewClearTextPasswordAuthenticatorWith("", *pw))
+	}
+	if authMsg {
+		srv.SetAuthCommandHandler(&msgAuthHandler{srv: srv})
 	}
 	idle := make(chan int, nconn*4)
 	conns := make([]*chanConn, nconn)
@@ -204,4 +212,15 @@ func runSys(toks []string) (string, string) {
 type probeHandler struct {
 	sys *sysRun
 	d   *double
+}
+
+// msgAuthHandler decides like Server.Auth and reports a refusal as an error message instead of a Go error.
+type msgAuthHandler struct{ srv *redis.Server }
+
+func (h *msgAuthHandler) Auth(conn *redis.Conn, username string, password string) (*redis.Message, error) {
+	msg, err := h.srv.Auth(conn, username, password)
+	if err != nil {
+		return redis.NewErrorMessage(err), nil
+	}
+	return msg, nil
 }
